@@ -225,6 +225,7 @@ pub fn main(args: &[String], which: &str) {
     }
     if which == "c10" { ignore_family(&mut rep); include_line_family(&mut rep); }
     if which == "c03" { aligned_include_family(&mut rep); }
+    if which == "c11" { flags_family(&mut rep); }
     if which == "c04" {
         // hypothesis of the Lean theorem C04_dead_subtrees_reached_clean: in the model's parse of every file of the generated cases each
         // `define / macro usage / `__FILE__ / `__LINE__ node carries a token (the model must answer "leafy")
@@ -238,6 +239,36 @@ pub fn main(args: &[String], which: &str) {
     }
     rep.write(out);
     println!("ok");
+}
+
+/// C11 family "the two mode flags are told apart inside expansions": an `include that comes out of a macro expansion (0..2 macro levels) of a
+/// file that defines and undefines macros, under all four combinations of strip_comments / ignore_include. The returned table must contain the
+/// file's definitions exactly when ignore_include is off, whatever strip_comments is. (cwd = the materialised root)
+fn flags_family(rep: &mut Report) {
+    let dir = "flagfam";
+    for depth in 0..3usize { for strip in [false, true] { for ignore in [false, true] {
+        let d = format!("{}/d{}s{}i{}", dir, depth, strip as u8, ignore as u8);
+        std::fs::create_dir_all(&d).unwrap();
+        std::fs::write(format!("{}/cfg.svh", d), "`define FROM_INC 8 // c\n`undef OLD\n").unwrap();
+        let mut top = String::from("`define OLD 1\n");
+        if depth > 0 { top.push_str(&format!("`define L1 `include \"{}/cfg.svh\"\n", d)); }
+        for k in 2..=depth { top.push_str(&format!("`define L{} `L{}\n", k, k - 1)); }
+        if depth == 0 { top.push_str(&format!("`include \"{}/cfg.svh\"\n", d)); } else { top.push_str(&format!("`L{}\n", depth)); }
+        top.push_str("tail /* t */\n");
+        let tname = format!("{}/top.sv", d);
+        std::fs::write(&tname, &top).unwrap();
+        let desc = format!("--- {}\n{}--- cfg.svh\n`define FROM_INC 8 // c / `undef OLD\n--- strip_comments={} ignore_include={} include through {} macro level(s)", tname, top, strip, ignore, depth);
+        rep.case(desc.as_bytes(), true); rep.count("flags-family");
+        match std::panic::catch_unwind(|| preprocess(PathBuf::from(&tname), &crate::api::no_defines(), &crate::api::no_includes(), strip, ignore)) {
+            Err(p) => rep.violation(&format!("panic: {}", util::panic_msg(p)), &desc, ""),
+            Ok(Err(e)) => rep.violation(&format!("unexpected error {}", crate::api::err_str(&e)), &desc, ""),
+            Ok(Ok((_, defs))) => {
+                let has_new = defs.contains_key("FROM_INC"); let has_old = defs.contains_key("OLD");
+                if ignore { if has_new || !has_old { rep.violation(&format!("with ignore_include the included file must not touch the table, but FROM_INC defined: {}, OLD defined: {}", has_new, has_old), &desc, ""); } }
+                else if !has_new || has_old { rep.violation(&format!("the definitions / undefinitions of the included file did not reach the returned table (FROM_INC defined: {}, OLD defined: {}) with strip_comments={}", has_new, has_old, strip), &desc, ""); }
+            }
+        }
+    } } }
 }
 
 /// C03 family "source offsets that run on across a file boundary": macro-free texts with one or two `include directives where the included
